@@ -19,6 +19,7 @@ Open Scope N_scope.
 Section Irp.
 Variable P : id -> Prop.
 Variable PM : N -> Prop.
+Variable PF : N -> Prop.
 
 (* a node record that may be stored outside P *)
 Definition GoodN (n : node) : Prop :=
@@ -35,12 +36,11 @@ Definition Sealed (w : world) : Prop :=
   (forall i, P i -> i < w_next w) /\
   (forall i n, ~ P i -> w_nodes w i = Some n -> GoodN n) /\
   (forall m x, ~ PM m -> nth_opt (w_models w) (N.to_nat m) = Some x -> GoodM x) /\
-  (forall m, PM m -> exists x, nth_opt (w_models w) (N.to_nat m) = Some x).
+  (forall m, PM m -> exists x, nth_opt (w_models w) (N.to_nat m) = Some x) /\
+  (forall f, PF f -> exists fl, nth_opt (w_files w) (N.to_nat f) = Some fl).
 
 Definition FileSame (w w' : world) : Prop :=
-  forall k, nth_opt (w_files w') k = nth_opt (w_files w) k \/
-            ((forall fl, nth_opt (w_files w) k = Some fl -> ~ PM (f_model fl)) /\
-             (forall fl, nth_opt (w_files w') k = Some fl -> ~ PM (f_model fl))).
+  forall f, PF f -> nth_opt (w_files w') (N.to_nat f) = nth_opt (w_files w) (N.to_nat f).
 
 Definition Same (w w' : world) : Prop :=
   (forall i, P i -> w_nodes w' i = w_nodes w i) /\
@@ -48,20 +48,14 @@ Definition Same (w w' : world) : Prop :=
   FileSame w w'.
 
 Lemma FileSame_refl w : FileSame w w.
-Proof. intros k. left. reflexivity. Qed.
+Proof. intros f _. reflexivity. Qed.
 Lemma FileSame_trans a c d : FileSame a c -> FileSame c d -> FileSame a d.
-Proof.
-  intros H1 H2 k. destruct (H1 k) as [E1|(A1 & B1)]; destruct (H2 k) as [E2|(A2 & B2)].
-  - left. congruence.
-  - right. split; auto. intros fl H. apply A2. congruence.
-  - right. split; auto. intros fl H. apply B1. congruence.
-  - right. auto.
-Qed.
+Proof. intros H1 H2 f Hf. rewrite H2, H1 by exact Hf. reflexivity. Qed.
 Lemma FileSame_eq w w' : w_files w' = w_files w -> FileSame w w'.
-Proof. intros E k. left. rewrite E. reflexivity. Qed.
+Proof. intros E f _. rewrite E. reflexivity. Qed.
 
 Lemma Same_refl w : Same w w.
-Proof. repeat split; auto. apply FileSame_refl. Qed.
+Proof. split; [reflexivity|split; [reflexivity|apply FileSame_refl]]. Qed.
 Lemma Same_trans a c d : Same a c -> Same c d -> Same a d.
 Proof.
   intros (A1 & A2 & A3) (B1 & B2 & B3). split; [|split].
@@ -181,7 +175,7 @@ Proof. intros H E. apply H. apply Nnat.N2Nat.inj. exact E. Qed.
 Lemma Sealed_wmodels w m x' :
   Sealed w -> ~ PM m -> GoodM x' -> Sealed (wmodels w (list_set (w_models w) (N.to_nat m) x')).
 Proof.
-  intros (S1 & S2 & S3 & S4) Hm Hg. split; [exact S1|]. split; [exact S2|]. split.
+  intros (S1 & S2 & S3 & S4 & S5) Hm Hg. split; [exact S1|]. split; [exact S2|]. split; [|split; [|exact S5]].
   - intros m' x Hk Hx. unfold wmodels in Hx; cbn [w_models] in Hx.
     destruct (N.eq_dec m' m) as [->|Hne].
     + destruct (nth_opt (w_models w) (N.to_nat m)) as [y|] eqn:Ey.
